@@ -38,7 +38,8 @@ def abmfOp (st : Abmf.Store) : Tok → Abmf.Store × String
     | _, _, _ => (st, "bad-op")
   | ["reset", _] => ([], "ok")
   | ["ccr", sess, ty, num, act, subT, sub, rg, rsu, usu] =>
-    match bytesOfHex sess, ty.toNat?, num.toNat?, act.toNat?, subT.toNat?, bytesOfHex sub, rg.toNat?,
+    -- `0-`: the Requested-Action AVP is absent; the server decodes the zero value
+    match bytesOfHex sess, ty.toNat?, num.toNat?, (if act = "0-" then some 0 else act.toNat?), subT.toNat?, bytesOfHex sub, rg.toNat?,
           rsu.toNat?, usu.toNat? with
     | some sess, some ty, some num, some act, some subT, some sub, some rg, some rsu, some usu =>
       let c : Abmf.CCR := { sess := sess, reqType := ty, reqNum := num, action := act, subType := subT,
@@ -95,7 +96,8 @@ def parseDump (s : String) : Option Abmf.Store :=
 
 def pCCR : Tok → Option Abmf.CCR
   | [sess, ty, num, act, subT, sub, rg, rsu, usu] =>
-    match bytesOfHex sess, ty.toNat?, num.toNat?, act.toNat?, subT.toNat?, bytesOfHex sub, rg.toNat?,
+    -- `0-`: the Requested-Action AVP is absent; the server decodes the zero value
+    match bytesOfHex sess, ty.toNat?, num.toNat?, (if act = "0-" then some 0 else act.toNat?), subT.toNat?, bytesOfHex sub, rg.toNat?,
           rsu.toNat?, usu.toNat? with
     | some sess, some ty, some num, some act, some subT, some sub, some rg, some rsu, some usu =>
       some { sess := sess, reqType := ty, reqNum := num, action := act, subType := subT,
